@@ -310,7 +310,48 @@ func TestConvergence(t *testing.T) {
 	rapid.Check(t, func(t *rapid.T) {
 		nVal := rapid.IntRange(3, 5).Draw(t, "validators")
 		base := rapid.IntRange(0, 40).Draw(t, "ipBase") * 3
+		// All lengths are drawn first: an "up to date" pair of nodes needs a clock ("now" slot) just after the last block.
+		prefix := rapid.IntRange(1, 14).Draw(t, "prefix")
+		// R's own fork (0..fr blocks) and P's fork (fp blocks). R's fork is built either by skipping slots (its blocks prevote
+		// as usual) or "selfishly" (every block claims maxHeightGenerated = height-1, so it prevotes for itself only and R's
+		// maxHeightPrevoted stays behind): only then can P's chain be better although its tip is lower.
+		fr := rapid.IntRange(0, 2*nVal+2).Draw(t, "forkR")
+		if rapid.IntRange(0, 3).Draw(t, "shallow") != 0 && fr > 2*nVal-2 {
+			fr = 2*nVal - 2
+		}
+		selfish := rapid.IntRange(0, 1).Draw(t, "selfishR") == 0
+		fpMin, fpMax := fr+1, fr+2*nVal+3
+		if selfish {
+			fpMin = 1
+			if fr >= 2 && rapid.IntRange(0, 1).Draw(t, "lowerTip") == 0 {
+				fpMax = fr - 1
+			}
+		}
+		fp := rapid.IntRange(fpMin, fpMax).Draw(t, "forkP")
+		if rapid.IntRange(0, 4).Draw(t, "farAhead") == 0 {
+			fp = fr + 2*nVal + 1 + rapid.IntRange(1, 12).Draw(t, "far") // beyond two rounds: block sync
+		}
+		upToDate := rapid.IntRange(0, 1).Draw(t, "upToDate") == 0
+		if rapid.IntRange(0, 3).Draw(t, "scenario") == 0 {
+			// directed: the better chain is the shorter one, both nodes up to date, fork within reach of fast sync
+			selfish, upToDate = true, true
+			fr = rapid.IntRange(3, 2*nVal-2).Draw(t, "forkR2")
+			fp = rapid.IntRange(2, fr-1).Draw(t, "forkP2")
+		}
+		gapR := 2
+		if selfish {
+			gapR = 1
+		}
 		cfgR := node.Config{Genesis: node.EqualGenesis(nVal), BatchSize: nVal, ListenAddr: listenAddr(base)}
+		if upToDate {
+			// "now" is the slot after the last block of either branch: the node is not behind, so block sync is only
+			// prescribed when finality is more than three rounds old
+			last := prefix + fr*gapR
+			if prefix+fp > last {
+				last = prefix + fp
+			}
+			cfgR.SlotsBehind = last + 1
+		}
 		R, err := node.New(cfgR)
 		if err != nil {
 			t.Fatalf("node R: %v", err)
@@ -326,7 +367,6 @@ func TestConvergence(t *testing.T) {
 		defer P.Close()
 		var hist []string
 		// shared prefix
-		prefix := rapid.IntRange(1, 14).Draw(t, "prefix")
 		for i := 0; i < prefix; i++ {
 			b, err := P.Apply(node.Spec{Script: node.Script{Salt: uint32(i % 5)}})
 			if err != nil {
@@ -336,21 +376,16 @@ func TestConvergence(t *testing.T) {
 				t.Fatalf("R apply shared: %v", err)
 			}
 		}
-		hist = append(hist, fmt.Sprintf("shared prefix %d blocks, finalized R=%d", prefix, R.Finalized()))
-		// R's own fork (0..fr blocks) and P's better fork (fp blocks, longer or with more prevotes)
-		fr := rapid.IntRange(0, 2*nVal+2).Draw(t, "forkR")
-		if rapid.IntRange(0, 3).Draw(t, "shallow") != 0 && fr > 2*nVal-2 {
-			fr = 2*nVal - 2
-		}
+		hist = append(hist, fmt.Sprintf("shared prefix %d blocks, finalized R=%d, selfish=%v upToDate=%v", prefix, R.Finalized(), selfish, upToDate))
 		for i := 0; i < fr; i++ {
-			// R's fork: slots are skipped so that R's branch differs from P's from the first block on
-			if _, err := R.Apply(node.Spec{SlotGap: 2, Script: node.Script{Salt: 50 + uint32(i)}}); err != nil {
+			spec := node.Spec{SlotGap: gapR, Script: node.Script{Salt: 50 + uint32(i)}}
+			if selfish {
+				mhg := R.Tip().Header.Height
+				spec.MHG = &mhg
+			}
+			if _, err := R.Apply(spec); err != nil {
 				t.Fatalf("R fork: %v", err)
 			}
-		}
-		fp := rapid.IntRange(fr+1, fr+2*nVal+3).Draw(t, "forkP")
-		if rapid.IntRange(0, 4).Draw(t, "farAhead") == 0 {
-			fp = fr + 2*nVal + 1 + rapid.IntRange(1, 12).Draw(t, "far") // beyond two rounds: block sync
 		}
 		for i := 0; i < fp; i++ {
 			if _, err := P.Apply(node.Spec{Script: node.Script{Salt: 80 + uint32(i%5)}}); err != nil {
@@ -397,8 +432,15 @@ func TestConvergence(t *testing.T) {
 		if gap < 0 {
 			gap = -gap
 		}
-		fastOK := gap <= 2*nVal && fr <= 2*nVal-2 && fp <= 2*nVal
-		blockOK := gap > 2*nVal
+		// (Syncer.Sync: fast sync is tried when the tips are at most two rounds apart and is not followed by block sync;
+		// block sync otherwise, when the finalized block is more than three rounds of slots old.)
+		fastTried := gap <= 2*nVal
+		fastOK := fastTried && fr <= 2*nVal-2 && fp <= 2*nVal
+		finSlot := 0
+		if fh, err := R.Chain.DataAccess().GetBlockHeaderByHeight(Fbefore); err == nil {
+			finSlot = R.SlotOf(fh.Timestamp)
+		}
+		blockOK := !fastTried && R.Cfg.SlotsBehind-finSlot > 3*nVal
 		promised := fastOK || blockOK
 		if !promised {
 			evid.R.Label("fork-deeper-than-two-rounds-not-asserted", 1)
@@ -430,7 +472,132 @@ func TestConvergence(t *testing.T) {
 		}
 		evid.R.Case(strings.Join(hist, "|"), fr >= 2 && converged, func() any {
 			return map[string]any{"kind": "convergence", "history": hist, "mode": mode, "converged": converged, "err": fmt.Sprint(perr)}
-		}, "convergence", "mode-"+mode, fmt.Sprintf("converged-%v", converged), fmt.Sprintf("better-%v", better))
+		}, "convergence", "mode-"+mode, fmt.Sprintf("converged-%v", converged), fmt.Sprintf("better-%v", better),
+			fmt.Sprintf("better-with-lower-tip-%v", better && ptip.Header.Height < rt.Height), fmt.Sprintf("up-to-date-%v", upToDate))
+	})
+}
+
+// ---------------------------------------------------------------------------------------------------------------
+// (3a) block sync with several connected peers: the node must download from the peer the selection rule names
+// (largest maxHeightPrevoted first, then height), whichever peer's block started the sync.
+
+func TestMultiPeerBlockSync(t *testing.T) {
+	rapid.Check(t, func(t *rapid.T) {
+		nVal := rapid.IntRange(3, 5).Draw(t, "validators")
+		base := rapid.IntRange(0, 40).Draw(t, "ipBase") * 4
+		prefix := rapid.IntRange(1, 10).Draw(t, "prefix")
+		// peer B: honest round-robin blocks (maxHeightPrevoted follows the tip); peer C: "selfish" blocks (each prevotes for
+		// itself only, maxHeightPrevoted stays where the prefix left it) or ordinary ones.
+		fb := 2*nVal + 1 + rapid.IntRange(1, 10).Draw(t, "forkB")
+		fc := 2*nVal + 1 + rapid.IntRange(1, 14).Draw(t, "forkC")
+		selfishC := rapid.IntRange(0, 3).Draw(t, "selfishC") != 0
+		twinB := rapid.IntRange(0, 2).Draw(t, "twinB") == 0 // a third peer holding B's chain as well
+		trigger := rapid.SampledFrom([]string{"B", "C"}).Draw(t, "trigger")
+		mk := func(i int, ts uint32) *node.Node {
+			cfg := node.Config{Genesis: node.EqualGenesis(nVal), BatchSize: nVal, ListenAddr: listenAddr(base + i), GenesisTS: ts}
+			n, err := node.New(cfg)
+			if err != nil {
+				t.Fatalf("node %d: %v", i, err)
+			}
+			return n
+		}
+		R := mk(0, 0)
+		defer R.Close()
+		B := mk(1, R.Cfg.GenesisTS)
+		defer B.Close()
+		C := mk(2, R.Cfg.GenesisTS)
+		defer C.Close()
+		peers := []*node.Node{B, C}
+		var B2 *node.Node
+		if twinB {
+			B2 = mk(3, R.Cfg.GenesisTS)
+			defer B2.Close()
+			peers = append(peers, B2)
+		}
+		give := func(b *blockchain.Block, to ...*node.Node) {
+			for _, n := range to {
+				if n == nil {
+					continue
+				}
+				if err := n.Exec.VerifProcess(node.CloneBlock(b), "x"); err != nil {
+					t.Fatalf("apply shared block %d: %v", b.Header.Height, err)
+				}
+			}
+		}
+		for i := 0; i < prefix; i++ {
+			b, err := B.Apply(node.Spec{Script: node.Script{Salt: uint32(i % 5)}})
+			if err != nil {
+				t.Fatalf("prefix: %v", err)
+			}
+			give(b, R, C, B2)
+		}
+		for i := 0; i < fb; i++ {
+			b, err := B.Apply(node.Spec{Script: node.Script{Salt: 80 + uint32(i%5)}})
+			if err != nil {
+				t.Fatalf("B fork: %v", err)
+			}
+			give(b, B2)
+		}
+		for i := 0; i < fc; i++ {
+			spec := node.Spec{Script: node.Script{Salt: 120 + uint32(i%5)}}
+			if selfishC {
+				mhg := C.Tip().Header.Height
+				spec.MHG = &mhg
+			}
+			if _, err := C.Apply(spec); err != nil {
+				t.Fatalf("C fork: %v", err)
+			}
+		}
+		for _, p := range peers {
+			connect(t, R, p)
+		}
+		bt, ct := B.Tip(), C.Tip()
+		// expected choice by the stated rule
+		want := "B"
+		switch {
+		case ct.Header.MaxHeightPrevoted > bt.Header.MaxHeightPrevoted:
+			want = "C"
+		case ct.Header.MaxHeightPrevoted == bt.Header.MaxHeightPrevoted && ct.Header.Height > bt.Header.Height:
+			want = "C"
+		case ct.Header.MaxHeightPrevoted == bt.Header.MaxHeightPrevoted && ct.Header.Height == bt.Header.Height:
+			want = "B (twin)"
+			if !twinB {
+				want = "either"
+			}
+		}
+		hist := fmt.Sprintf("n=%d prefix=%d B: +%d tip %d mhp %d (twin %v); C: +%d selfish=%v tip %d mhp %d; trigger %s; want %s", nVal, prefix, fb,
+			bt.Header.Height, bt.Header.MaxHeightPrevoted, twinB, fc, selfishC, ct.Header.Height, ct.Header.MaxHeightPrevoted, trigger, want)
+		tb, from := bt, B
+		if trigger == "C" {
+			tb, from = ct, C
+		}
+		Fbefore := R.Finalized()
+		before := view(R)
+		done := make(chan error, 1)
+		go func() { done <- R.Exec.VerifProcess(node.CloneBlock(tb), from.Conn.ID()) }()
+		var perr error
+		select {
+		case perr = <-done:
+		case <-time.After(90 * time.Second):
+			evid.R.Inconclusive("multi-peer sync did not finish within 90 s: %s", hist)
+			t.Skip("sync timeout (inconclusive)")
+		}
+		after := view(R)
+		for h := uint32(0); h <= Fbefore; h++ {
+			if !bytes.Equal(after.ids[h], before.ids[h]) {
+				t.Fatalf("finalized block at height %d replaced during sync\n%s", h, hist)
+			}
+		}
+		tip := R.Tip().Header
+		onB, onC := bytes.Equal(tip.ID, bt.Header.ID), bytes.Equal(tip.ID, ct.Header.ID)
+		switch {
+		case strings.HasPrefix(want, "B") && !onB, want == "C" && !onC, want == "either" && !onB && !onC:
+			t.Fatalf("block sync with %d peers ended on the wrong chain (tip height %d, on B=%v on C=%v, err=%v)\n%s", len(peers), tip.Height, onB, onC, perr, hist)
+		}
+		lowerBest := (want == "B" || want == "B (twin)") && bt.Header.Height < ct.Header.Height || want == "C" && ct.Header.Height < bt.Header.Height
+		evid.R.Case(hist, lowerBest, func() any {
+			return map[string]any{"kind": "multi-peer-block-sync", "history": hist}
+		}, "multi-peer-block-sync", "want-"+want, fmt.Sprintf("best-peer-has-lower-tip-%v", lowerBest), "trigger-"+trigger)
 	})
 }
 
